@@ -75,6 +75,12 @@ func (ts *TunnelSet) addICMP(t *Tunnel) {
 			seen[[2]int{x.ID, k}] = true
 			x.serverGot++
 			rp := simicmp.Reply{ID: rq.ID, SeqN: rq.SeqN, Data: udpPayload('J', x.ID, k, 1+(k*41)%1200)}
+			if ts.holdICMPReplies && simrt.Chance(1, 3, "icmphold") {
+				// arrives together with the frame that closes the session (see watchICMPClose)
+				rp.Hold = true
+				simrt.Probe("icmp_reply_held_until_close")
+				return []simicmp.Reply{rp}
+			}
 			switch simrt.Choose(8, "icmpreply") {
 			case 5:
 				rp.Delay = time.Duration(1+simrt.Choose(3000, "icmpdelayms")) * time.Millisecond
@@ -179,7 +185,12 @@ func (ts *TunnelSet) startICMP(t *Tunnel) {
 				simrt.Chan(sess.SendEcho).Send(&health.ICMPEchoRequest{Identifier: uint16(1000 + t.ID), Sequence: uint16(k), Payload: udpPayload('I', t.ID, k, 1+(k*53)%1100)})
 				gap(k)
 			}
-			simrt.Sleep(time.Duration(3+simrt.Choose(5, "icmplinger")) * time.Second)
+			if ts.holdICMPReplies && simrt.Chance(1, 2, "icmp-close-early") {
+				// the client gives up while the exit is still waiting for replies
+				simrt.Sleep(time.Duration(simrt.Choose(1500, "icmplinger-ms")) * time.Millisecond)
+			} else {
+				simrt.Sleep(time.Duration(3+simrt.Choose(5, "icmplinger")) * time.Second)
+			}
 			sess.Close()
 			close(stop)
 			for !readerDone {
@@ -237,7 +248,12 @@ func (ts *TunnelSet) startICMP(t *Tunnel) {
 				}
 				gap(k)
 			}
-			simrt.Sleep(time.Duration(3+simrt.Choose(5, "icmplinger")) * time.Second)
+			if ts.holdICMPReplies && simrt.Chance(1, 2, "icmp-close-early") {
+				// the client gives up while the exit is still waiting for replies
+				simrt.Sleep(time.Duration(simrt.Choose(1500, "icmplinger-ms")) * time.Millisecond)
+			} else {
+				simrt.Sleep(time.Duration(3+simrt.Choose(5, "icmplinger")) * time.Second)
+			}
 			ctl.Close()
 			for !readerDone || !relayDone {
 				simrt.Sleep(100 * time.Millisecond)
@@ -247,5 +263,21 @@ func (ts *TunnelSet) startICMP(t *Tunnel) {
 			simrt.Probe("icmp_reply_received")
 		}
 		simrt.Eventf("tunnel %d icmp client done via=%s replies=%d/%d destination got %d", t.ID, t.ICMPVia, t.clientGot, t.Up, t.serverGot)
+	})
+}
+
+// watchICMPClose releases the echo replies that the simulated internet holds
+// back for an exit at the very instant an ICMP_CLOSE frame is written to that
+// exit: the reply is read from the socket while the session is being closed
+// (C04: whatever the exit still sends for that session must be sealed).
+func (ts *TunnelSet) watchICMPClose() {
+	ts.holdICMPReplies = true
+	ts.m.Tap.OnFrame = append(ts.m.Tap.OnFrame, func(ev *FrameEvent) {
+		if ev.Type != protocol.FrameICMPClose {
+			return
+		}
+		if n := simicmp.W().ReleaseHeld(ev.To); n > 0 {
+			simrt.Probe("icmp_reply_arrives_with_close")
+		}
 	})
 }
